@@ -148,6 +148,13 @@ def bounds_stack_classes(raw):
     import gen
     toks = gen.tokens(raw.get("original_instrs", ""))
     out = []
+    try:
+        # a bound that does not even admit the initial stack is not one of the recorded ways the estimate falls short (no
+        # specification of the unchanged tree has one; seed C16-stack-bound-after-prune produces them): always reported
+        if int(raw.get("max_sk_sz", 0)) < len(raw.get("src_ws", [])):
+            return out
+    except Exception:
+        pass
     has_store = any(t.split()[0] in ("MSTORE", "MSTORE8", "SSTORE") for t in toks)
     try:
         # only for blocks without stores and without rules: the stack need of store operands is estimated by a separate
